@@ -439,7 +439,10 @@ class Engine:
             # a lemma may build on items of lemma chains (proved in their own unit), instantiated at its parameters
             chain = dsl.LEMMAS[use[0]]["fn"](c, *use[1](*params.values()))
             only = use[2] if len(use) > 2 else None
-            self.assume_chain([it for it in chain if only is None or it[0] in only], st, top_only=True)
+            if isinstance(chain, list):
+                self.assume_chain([it for it in chain if only is None or it[0] in only], st, top_only=True)
+            else:
+                st.assume(chain)  # a plain lemma (proved in its own unit), instantiated at these arguments
             self.used_contracts.add(f"lemma:{use[0]}")
         goal = L["fn"](c, *params.values())
         for f in c.side:
@@ -542,6 +545,8 @@ class Engine:
             for row_ in self.row_registry:
                 for cst in consts:
                     hyps.append(tmark(TID(row_(cst))))
+                    for M_ in getattr(self, "_map_funs", {}).values():
+                        hyps.append(tmark(TID(M_(row_(cst)))))
             for v_ in st.env.values():  # the tuples held by local variables
                 if isinstance(v_, SeqV) and v_.meta.get("tterm") is not None:
                     hyps.append(tmark(TID(v_.meta["tterm"])))
